@@ -6,20 +6,62 @@ by the Lean model (same nesting, same numbers) and by the registrars' grammar; p
 """
 from __future__ import annotations
 
-from .. import common
+import random
+
+from .. import common, progs
 from . import _trace
+
+
+def unterminated_specs(chk: common.Check, n: int) -> list[dict]:
+    """programs whose output does not end with a newline (the main thread's last write, a thread's, a task's: `print(x, end='')`,
+    `sys.stdout.write('tail')`, '\\r' progress displays), threads joined and not joined: whatever is reported for such a piece
+    belongs, like every other event, between the start and the end of its trace"""
+    rng = chk.rng
+    out = []
+    for i in range(n):
+        nt, na = [(0, 0), (1, 0), (2, 0), (0, 2), (1, 1), (2, 2)][i % 6]
+        join = not (nt > 0 and i % 4 == 3)
+        src, info = progs.unterminated_output(random.Random(rng.randrange(1 << 30)), nt, na, join=join)
+        pol = [{'kind': 'all', 'command': 'next'}, {'kind': 'all', 'command': 'continue'}, {'kind': 'all', 'command': 'step'},
+               {'kind': 'random', 'seed': i, 'choices': ['next', 'step', 'return']}][i % 4]
+        out.append({'source': src, 'policy': pol, 'trace_threads': i % 5 != 4, 'trace_modules': False,
+                    'kind': 'unterminated-output' + ('' if join else '-not-joined'), 'owners': info['owners'], 'unterminated': info['unterminated'],
+                    'decoys': False, 'run_no': 8, 'timeout': 40, 'want_reference': False, 'want_recorder': False})
+    return out
+
+
+def stdout_bracket_oracle(evs: list[dict]) -> list[str]:
+    """the clause 'nothing for a trace appears before its start or after its end' for reported output, naming the misplaced text
+    (the grammar oracle flags the same events without saying on which side of the trace they lie)"""
+    started: set = set()
+    ended: set = set()
+    msgs = []
+    for e in evs:
+        t = e.get('trace_no')
+        if e['_type'] == 'OnStartTrace':
+            started.add(t)
+        elif e['_type'] == 'OnEndTrace':
+            ended.add(t)
+        elif e['_type'] == 'OnWriteStdout' and t is not None:
+            if t in ended:
+                msgs.append(f'output {e.get("text")!r} is reported for trace {t} after the end of that trace')
+            elif t not in started:
+                msgs.append(f'output {e.get("text")!r} is reported for trace {t} before the start of that trace')
+    return msgs
 
 
 def run(chk: common.Check) -> None:
     chk.cov.rule = ('generated programs (assignments, loops, conditionals, defs, classes, calls, try/except/raise, generators, lambdas; threads and '
                     'asyncio tasks, nested and sequential) × command policies {step, next, continue, return, until, random mixes, decoys, commands '
-                    'that do not resume}, through the real trace machinery in-process; plus real-child runs with SIGINT at an open prompt. Every '
+                    'that do not resume}, through the real trace machinery in-process; plus real-child runs with SIGINT at an open prompt; plus programs whose main thread / '
+                    'threads / tasks end their output without a newline (end=\'\', sys.stdout.write, \\r progress; threads joined and not), in-process and in a real child. Every '
                     'emitted stream is checked by the Lean model (acceptance) and the grammar oracle. Non-trivial: the stream contains at least one '
                     'command loop; distinct = distinct (program, policy, options).')
     chk.assumptions += ['CPython calls the trace function per thread/task as the model\'s labels say (no nested trace calls within one trace)',
                         'itertools.count().__next__ is atomic under the GIL (single counters for trace-call and prompt numbers)']
     n1, n2 = (60, 30) if chk.tier == 'quick' else (600, 300)
     specs = _trace.gen_specs(chk, n1, n2) + _trace.stress_specs(chk, 8 if chk.tier == 'quick' else 60)
+    specs += unterminated_specs(chk, 12 if chk.tier == 'quick' else 120)
     results = _trace.run_specs(specs)
     lines: list[str] = []
     spans = []
@@ -39,7 +81,7 @@ def run(chk: common.Check) -> None:
         chk.cov.count('policy', sp['policy'].get('command', 'random'))
         for e in evs:
             chk.cov.count('events', e['_type'])
-        msgs = _trace.grammar_oracle(evs, sp.get('run_no', 1))
+        msgs = stdout_bracket_oracle(evs) + _trace.grammar_oracle(evs, sp.get('run_no', 1))
         if t.get('error'):
             msgs.append(f'spawned.run raised: {t["error"]}')
         if msgs:
@@ -57,11 +99,18 @@ def run(chk: common.Check) -> None:
         if i % 3 != 2:
             spec['signal'] = {'kind': 'interrupt', 'at_prompt': 2 + i}
         rspecs.append(spec)
+    # real child, output that does not end with a newline (the remainder is handled when the child's plugin contexts are left)
+    for i in range(2 if chk.tier == 'quick' else 12):
+        src, info = progs.unterminated_output(random.Random(chk.rng.randrange(1 << 30)), [1, 2, 0][i % 3], [0, 1, 2][i % 3], join=i % 4 != 3)
+        if 'M' not in info['unterminated']:
+            src += "sys.stdout.write('M tail')\n"
+        rspecs.append({'statement': src, 'trace_threads': True, 'policy': {'kind': 'all', 'command': ['next', 'continue'][i % 2]}, 'probe': True,
+                       'timeout': 40, 'unterminated': True})
     for r in common.real_runs(rspecs, jobs=6, hard_timeout=90):
         sp = r['spec']
         evs = r['child_log']
-        chk.cov.case(('real', repr(sp.get('signal')), repr(sp['policy'])))
-        chk.cov.count('kinds', 'real-child' + ('-interrupt' if sp.get('signal') else ''))
+        chk.cov.case(('real', repr(sp.get('signal')), repr(sp['policy'])) + ((sp['statement'],) if sp.get('unterminated') else ()))
+        chk.cov.count('kinds', 'real-child' + ('-interrupt' if sp.get('signal') else '') + ('-unterminated-output' if sp.get('unterminated') else ''))
         rec = r['rec']
         if rec is None or not rec.get('finished'):
             oracle_fail.append((sp, [f'real run did not finish: {(rec or {}).get("errors")}'], None))
@@ -69,7 +118,7 @@ def run(chk: common.Check) -> None:
         if not evs:
             oracle_fail.append((sp, ['the child-side probe recorded no events'], None))
             continue
-        msgs = _trace.grammar_oracle(evs, 1)
+        msgs = stdout_bracket_oracle(evs) + _trace.grammar_oracle(evs, 1)
         if msgs:
             oracle_fail.append((sp, msgs, evs[:60]))
         enc = _trace.encode(evs)
